@@ -1,17 +1,22 @@
 (* C03 property theorems for histories in which the LIB MOVES.  Proofs live in Proofs/Fk/MovingLibEvents.v,
    Proofs/Fk/MovingLibChoice.v and Proofs/C03_MovingProofs.v. *)
 From BV Require Import Base.Prelude Model.Block Model.ForkDB Model.Forkable Model.ForkableLookups
-  Spec.Consumer Spec.Universe Spec.ForkChoice Spec.C01_Spec Spec.C01_Moving_Spec Spec.C03_Spec Spec.C03_Moving_Spec
+  Spec.Consumer Spec.Universe Spec.ForkChoice Spec.C01_Spec Spec.C01_Moving_Spec Spec.C01_Roots_Spec Spec.C03_Spec Spec.C03_Moving_Spec
   Check.Fk_Check Check.Fk_Props_Check Proofs.C03_MovingProofs.
 Local Open Scope N_scope.
 
 (* partial: a configured starting LIB (exclusive or inclusive) coherent with the history, LIB declarations in
    the class lib_ok_b, no empty parent ids, handler that never fails.  c03_full (Spec/C03_Spec.v) is the full
-   statement; missing: the retention clause (c03_retention_statement) for moving LIBs, histories with empty
-   parent ids or a starting LIB incoherent with the history. *)
+   statement; missing: a starting LIB incoherent with the history, histories outside lib_ok_b. *)
 Theorem c03_moving_lib_partial : c03_moving_lib_statement.
 Proof. exact c03_moving_lib_proved. Qed.
 Print Assumptions c03_moving_lib_partial.
+
+(* the same for histories that may contain roots (blocks with an empty parent id): class moving_scope2_b of
+   Spec/C01_Roots_Spec.v, which contains moving_scope_b *)
+Theorem c03_moving_lib_roots_partial : c03_moving_lib_roots_statement.
+Proof. exact c03_moving_lib_roots_proved. Qed.
+Print Assumptions c03_moving_lib_roots_partial.
 
 (* the reference fork choice has the meaning the property text gives to "the LIB becomes the tip's ancestor at
    the tip's declared LIB number if that ancestor has been received and lies above the current LIB" *)
@@ -52,5 +57,12 @@ Example c03_moving_nonvacuous :
   (let fc := fc_after (c03m_ex_cfg false 1) (fc_init (LExcl c03m_ex_r0)) (firstn 8 c03m_ex_hist) in
    fc_step 0 false false fc (mkBlock 3 12 2 10) = fc) /\
   (let fc := fc_after (c03m_ex_cfg false 1) (fc_init (LExcl c03m_ex_r0)) (firstn 9 c03m_ex_hist) in
-   fc_step 0 false false fc (mkBlock 20 9 19 8) = fc).
-Proof. vm_compute. repeat split. Qed.
+   fc_step 0 false false fc (mkBlock 20 9 19 8) = fc) /\
+  (* retention really matters in this history: with kept = 0 blocks are purged that kept = 5 retains, the runs agree *)
+  map (fun e => bid (eb e)) (store (db (last (fk_states (c03m_ex_cfg false 0) (fs_init (LExcl c03m_ex_r0)) c03m_ex_hist)
+                                             (fs_init (LExcl c03m_ex_r0))))) <>
+  map (fun e => bid (eb e)) (store (db (last (fk_states (c03m_ex_cfg false 5) (fs_init (LExcl c03m_ex_r0)) c03m_ex_hist)
+                                             (fs_init (LExcl c03m_ex_r0))))) /\
+  fk_run (c03m_ex_cfg false 0) (fs_init (LExcl c03m_ex_r0)) c03m_ex_hist =
+  fk_run (c03m_ex_cfg false 5) (fs_init (LExcl c03m_ex_r0)) c03m_ex_hist.
+Proof. vm_compute. repeat split. intros H. discriminate. Qed.
